@@ -28,7 +28,7 @@ Proof. exact hessian_symmetric. Qed.
 (* twice the stored entry (= what gradient2 reads back) for the pair (u, v) is the derivative with
    respect to v of the first-order AD coefficient for u — which by C01_ad1_exact is the true first
    partial derivative d/du at every point of the domain *)
-Theorem C02_hessian_pointwise : forall sh (e : expr R) (rho : env R) u v, Dom e rho ->
+Theorem C02_hessian_pointwise : forall sh (e : expr R) (rho : env R) u v, Dom2 e rho ->
   is_derive (fun y => coef (evalDual sh e (upd rho v y)) u) (rho v) (2 * coef2 (evalDual2 sh e rho) u v).
 Proof. exact hessian_pointwise. Qed.
 
@@ -36,19 +36,30 @@ Proof. exact hessian_pointwise. Qed.
    d_u f (rho') := Derive (fun x => f (rho'[u := x])) (rho' u), Coquelicot's total derivative operator,
    the function y |-> d_u f (rho[v := y]) is differentiable at rho v with derivative 2 * dual2[u][v]
    (needs the domain to be open along coordinates, which is proved: Dom_locally) *)
-Theorem C02_hessian_exact : forall sh (e : expr R) (rho : env R) u v, Dom e rho ->
+Theorem C02_hessian_exact : forall sh (e : expr R) (rho : env R) u v, Dom2 e rho ->
   is_derive (fun y => Derive (fun x => evalT e (upd (upd rho v y) u x)) (upd rho v y u)) (rho v)
             (2 * coef2 (evalDual2 sh e rho) u v).
 Proof. exact hessian_exact. Qed.
 
+(* Dom2 = the twice-differentiable domain (Proofs/AD2.v): Dom with, for powers, the power rule
+   differentiable once more — base 0 is included for every exponent 0, 1, 2, 3, ... *)
+Theorem C02_domains : forall (e : expr R) (rho : env R), Dom2 e rho -> Dom e rho.
+Proof. exact Dom2_Dom. Qed.
+
 Example C02_example :
   let x := [120%Z] in let y := [121%Z] in
   let rho : env R := fun _ => 1 in
-  Dom (Mul (Var x) (Exp (Mul (Var x) (Var y)))) rho.
-Proof. cbn. tauto. Qed.
+  Dom2 (Mul (Var x) (Exp (Mul (Var x) (Var y)))) rho /\
+  Dom2 (Pow (Sub (Var x) (Var y)) 2) rho.          (* (x - y)^2 at x = y: base exactly 0 *)
+Proof.
+  cbn. split; [tauto|]. split; [tauto|]. split.
+  - right. right. split; [lra|]. exists 2%nat. cbn; lra.
+  - left. right. right. split; [lra|]. exists 1%nat. cbn; lra.
+Qed.
 
 Print Assumptions C02_first_order_agrees.
 Print Assumptions C02_value_and_gradient.
 Print Assumptions C02_symmetric.
 Print Assumptions C02_hessian_pointwise.
 Print Assumptions C02_hessian_exact.
+Print Assumptions C02_domains.
